@@ -56,7 +56,8 @@ def c16_regen(pid, tier, seed, workdir, stats):
 def c16_corpus(pid, tier, seed, workdir, stats):
     """Second tie / oracle: generic obligation programs compiled by rustc against the rlib built from /repo."""
     summ = os.path.join(workdir, "c16-summary.json")
-    rc, log = core.sh(["python3", os.path.join(core.VERIF, "translate", "c16_corpus.py"), "--repo", core.REPO, "--out", summ], timeout=3600)
+    rc, log = core.sh(["python3", os.path.join(core.VERIF, "translate", "c16_corpus.py"), "--repo", core.REPO, "--out", summ,
+                       "--target-dir", os.path.join(core.CACHE, "c16-target")], timeout=3600)
     if not os.path.exists(summ):
         raise Violation("C16: obligation corpus could not be compiled (build of /repo failed?)", "# " + log[-2500:].replace("\n", "\n# ") + "\n", False)
     j = json.load(open(summ))
